@@ -161,7 +161,7 @@ RECURSIVE Eval(_, _)
 
 (* apply a lambda term to positional values (defaults / keywords: CallLam) *)
 Apply(lam, vals, env) ==
-    IF lam.k # "lam" THEN Unm("apply-nonlambda")
+    IF lam.k # "lam" \/ ~PlainLam(lam) THEN Unm("apply-nonlambda")
     ELSE IF Len(lam.p) # Len(vals) THEN Err("TypeError-arity")
     ELSE Eval(lam.a[1], [x \in Range(lam.p) |->
                             vals[CHOOSE i \in 1..Len(lam.p) : lam.p[i] = x /\
@@ -202,7 +202,7 @@ SeqOp(op, srcv, args, kwn, kwv, env) ==
     ELSE IF kwn # <<>> THEN Unm("operator-keywords")
     ELSE IF op \in {"Select", "Where", "SelectMany"} THEN
         IF Len(args) # 1 THEN Unm("operator-arity")
-        ELSE IF args[1].k # "lam" \/ Len(args[1].p) # 1 + args[1].n THEN Unm("operator-nonlambda")
+        ELSE IF args[1].k # "lam" \/ Len(args[1].p) # 1 + args[1].n \/ ~PlainLam(args[1]) THEN Unm("operator-nonlambda")
         ELSE IF srcv.t # "list" THEN Err("TypeError-notseq")
         ELSE LET rs == [i \in 1..Len(srcv.e) |-> ApplyOp(args[1], srcv.e[i], env)] IN
              IF AnyBad(rs) THEN FirstBad(rs)
@@ -227,7 +227,7 @@ SeqOp(op, srcv, args, kwn, kwv, env) ==
                [] OTHER -> VInt(MinInts(srcv.e))
     ELSE IF op = "Aggregate" THEN
         IF Len(args) # 2 THEN Unm("operator-arity")
-        ELSE IF args[2].k # "lam" \/ Len(args[2].p) # 2 \/ args[2].n # 0 THEN Unm("operator-nonlambda")
+        ELSE IF args[2].k # "lam" \/ Len(args[2].p) # 2 \/ args[2].n # 0 \/ ~PlainLam(args[2]) THEN Unm("operator-nonlambda")
         ELSE IF srcv.t # "list" THEN Err("TypeError-notseq")
         ELSE LET init == Eval(args[1], env) IN Fold(args[2], init, srcv.e, 1, env)
     ELSE IF op = "MetaData" THEN srcv
@@ -304,7 +304,46 @@ EvalMethod(t, env) ==     \* t = call whose func is attr
                                    IF IsNum(kvs[i]) THEN VInt(kvs[i].n * 31 + KwCode(t.p[i]))
                                    ELSE kvs[i]])
 
+(* A called lambda whose parameter list has positional-only / keyword-only / star-args / double-star-kwargs parts: Python's *)
+(* binding in full.  A double-star parameter that actually receives something is outside the modelled values.              *)
+EvalCalledLambdaG(t, env) ==
+    LET lam == t.a[1]
+        sg == LamSig(lam.s)
+        args == CallArgs(t)
+        kwv  == CallKwVals(t)
+        avs == [i \in 1..Len(args) |-> Eval(args[i], env)]
+        kvs == [i \in 1..Len(kwv) |-> Eval(kwv[i], env)]
+        npos == NPositional(lam)                       \* positional-only + ordinary
+        nd == lam.n
+        vaIx == IF sg.va THEN npos + 1 ELSE 0          \* index of *args in lam.p
+        ko1 == npos + (IF sg.va THEN 1 ELSE 0)         \* keyword-only parameters are lam.p[ko1 + 1 .. ko1 + sg.ko]
+        dvs == [i \in 1..nd |-> Eval(lam.a[1 + i], env)]
+        kdt == [j \in 1..sg.ko |-> lam.a[1 + nd + j]]  \* default terms of keyword-only parameters (or absent)
+        kdv == [j \in 1..sg.ko |-> IF kdt[j].k = "absent" THEN VNone ELSE Eval(kdt[j], env)]
+        nbound == IF Len(avs) < npos THEN Len(avs) ELSE npos
+        (* a keyword may name an ordinary parameter not bound by position, or a keyword-only one *)
+        KwTarget(nm) == IF \E i \in (sg.po + 1)..npos : lam.p[i] = nm THEN CHOOSE i \in (sg.po + 1)..npos : lam.p[i] = nm
+                        ELSE IF \E j \in 1..sg.ko : lam.p[ko1 + j] = nm THEN ko1 + (CHOOSE j \in 1..sg.ko : lam.p[ko1 + j] = nm)
+                        ELSE 0
+        ok == /\ (Len(avs) <= npos \/ sg.va)
+              /\ \A i \in 1..Len(t.p) : KwTarget(t.p[i]) # 0 /\ KwTarget(t.p[i]) > nbound
+              /\ \A i, j \in 1..Len(t.p) : i # j => t.p[i] # t.p[j]
+              /\ \A i \in (nbound + 1)..npos : IndexOf(t.p, lam.p[i]) # 0 \/ i > npos - nd
+              /\ \A j \in 1..sg.ko : IndexOf(t.p, lam.p[ko1 + j]) # 0 \/ kdt[j].k # "absent"
+        bound == [i \in 1..Len(lam.p) |->
+                    IF i <= nbound THEN avs[i]
+                    ELSE IF i <= npos THEN (IF IndexOf(t.p, lam.p[i]) # 0 THEN kvs[IndexOf(t.p, lam.p[i])] ELSE dvs[i - (npos - nd)])
+                    ELSE IF i = vaIx THEN VTup(SubSeq(avs, nbound + 1, Len(avs)))
+                    ELSE IF i <= ko1 + sg.ko THEN (IF IndexOf(t.p, lam.p[i]) # 0 THEN kvs[IndexOf(t.p, lam.p[i])] ELSE kdv[i - ko1])
+                    ELSE VDict(<<>>, <<>>)]
+    IN IF AnyBad(avs \o kvs \o dvs \o kdv) THEN FirstBad(avs \o kvs \o dvs \o kdv)
+       ELSE IF \E i, j \in 1..Len(lam.p) : i # j /\ lam.p[i] = lam.p[j] THEN Err("SyntaxError-dup")
+       ELSE IF sg.kw /\ \E i \in 1..Len(t.p) : KwTarget(t.p[i]) = 0 THEN Unm("kwargs")
+       ELSE IF ~ok THEN Err("TypeError-bind")
+       ELSE Eval(lam.a[1], [x \in Range(lam.p) |-> bound[IndexOf(lam.p, x)]] @@ env)
+
 EvalCalledLambda(t, env) ==     \* t = call whose func is a lam term
+    IF ~PlainLam(t.a[1]) THEN EvalCalledLambdaG(t, env) ELSE
     LET lam == t.a[1]
         args == CallArgs(t)
         kwv  == CallKwVals(t)
@@ -331,7 +370,8 @@ EvalCalledLambda(t, env) ==     \* t = call whose func is a lam term
 (* i.e. the called lambda (lambda params: body)(args).  The table is rendered to real `def`s  *)
 (* and lambdas by the harness (harness/props_helpers.py HELPER_SOURCE must match).            *)
 LamD(ps, nd, body, defs) == T("lam", "", nd, ps, <<body>> \o defs)
-HelperNames == {"h_id", "h_inc", "h_sub", "h_lam", "h_nest", "h_nest2", "h_two", "h_cap", "h_kw", "h_d3", "h_deep", "h_rec", "h_comp", "h_comp2", "h_la", "h_lb", "h_cd", "h_th", "h_re1", "h_re2"}
+HelperNames == {"h_id", "h_inc", "h_sub", "h_lam", "h_nest", "h_nest2", "h_two", "h_cap", "h_kw", "h_d3", "h_deep", "h_rec", "h_comp", "h_comp2", "h_la", "h_lb", "h_cd", "h_th", "h_re1", "h_re2",
+                "h_po", "h_po2", "h_ko", "h_kod", "h_kwi"}
 HelperLam(f) ==
     CASE f = "h_id"   -> Lam(<<"a">>, Name("a"))
       [] f = "h_inc"  -> Lam(<<"a">>, BinOp("+", Name("a"), IntC(1)))
@@ -365,6 +405,14 @@ HelperLam(f) ==
       \* two DIFFERENT functions that share file, name and qualified name (defined in the branches of one factory)
       [] f = "h_re1"  -> Lam(<<"a">>, BinOp("*", Name("a"), IntC(2)))
       [] f = "h_re2"  -> Lam(<<"a">>, BinOp("+", Name("a"), IntC(100)))
+      \* helpers whose parameter lists have positional-only / keyword-only parts (def h(a, b, /), def h(a, *, b=4))
+      [] f = "h_po"   -> LamG("po2ko0va0kw0", 0, <<"a", "b">>, BinOp("-", Name("a"), Name("b")), <<>>, <<>>)
+      [] f = "h_po2"  -> LamG("po1ko0va0kw0", 0, <<"a", "b">>, BinOp("+", BinOp("*", Name("a"), IntC(10)), Name("b")), <<>>, <<>>)
+      [] f = "h_ko"   -> LamG("po0ko1va0kw0", 0, <<"a", "b">>, BinOp("+", BinOp("*", Name("a"), IntC(10)), Name("b")), <<>>, <<Absent>>)
+      [] f = "h_kod"  -> LamG("po0ko1va0kw0", 0, <<"a", "b">>, BinOp("+", BinOp("*", Name("a"), IntC(10)), Name("b")), <<>>, <<IntC(4)>>)
+      \* the body calls a lambda BY KEYWORD; the lambda's parameters are named like the helper's own (and like caller names)
+      [] f = "h_kwi"  -> Lam(<<"a", "b">>, CallK(Lam(<<"a", "b">>, BinOp("+", BinOp("*", Name("a"), IntC(10)), Name("b"))),
+                                                <<>>, <<"b", "a">>, <<Name("a"), Name("b")>>))
       [] f = "h_la"   -> Lam(<<"j">>, BinOp("*", Name("j"), IntC(2)))
       [] f = "h_lb"   -> Lam(<<"j">>, BinOp("*", Name("j"), IntC(5)))
       [] f = "h_d3"   -> LamD(<<"x", "y", "z">>, 2,
